@@ -851,7 +851,7 @@ where
                         <<U as Utf8Encoding>::Components as Utf8Components>::Component
                         as Utf8Component
                     >::parent().as_str());
-                } else {
+                } else if component.is_normal() {
                     path.push(component.as_str());
                 }
             }
@@ -926,7 +926,7 @@ where
                         <<U as Utf8Encoding>::Components as Utf8Components>::Component
                         as Utf8Component
                     >::parent().as_str());
-            } else {
+            } else if component.is_normal() {
                 path.push_checked(component.as_str())?;
             }
         }
